@@ -1,14 +1,42 @@
-(* Props/C04.v -- placeholder until the parser proofs land: entry points agree definitionally. *)
-From JsonSyntax Require Import Base.Prelude Base.Value Base.Unicode Model.Parser Model.EntryPoints.
+(* Props/C04.v -- printing round-trips: any well-formed value under ANY print options
+   re-parses (strictly) to itself.  Statements only.
+   wfv v: every number satisfies the RFC 8259 number grammar and every string / key is a
+   sequence of Unicode scalar values -- exactly what the safe API can construct. *)
+From JsonSyntax Require Import Base.Prelude Base.Value Base.Unicode Model.Parser Model.EntryPoints
+  Model.Printer Spec.Grammar Spec.Minimal Spec.Layout Proofs.PrintGrammar Proofs.RoundTrip Proofs.PrinterTheorems.
 
-Theorem C04_entry_points_text : forall cs,
-  parse_str cs = parse_str_with strict cs /\
-  parse_str cs = parse_utf8 cs /\
-  parse_str cs = parse_utf8_with strict cs /\
-  parse_str cs = parse_infallible_utf8 cs /\
-  parse_str cs = parse_utf8_infallible_with strict cs /\
-  parse_str cs = parse (chars cs) /\
-  parse_str cs = parse_with strict (chars cs).
-Proof. exact (fun cs => conj eq_refl (conj eq_refl (conj eq_refl (conj eq_refl (conj eq_refl (conj eq_refl eq_refl)))))). Qed.
+Theorem C04_roundtrip : forall o v, wfv v ->
+  exists t m, print_with o v = Some t /\ parse_str t = Ok (v, m).
+Proof. exact print_parse_roundtrip. Qed.
 
-Print Assumptions C04_entry_points_text.
+Theorem C04_output_is_strict_json : forall o v, wfv v -> exists t, print_with o v = Some t /\ Strict t.
+Proof. exact print_strict. Qed.
+
+(* the printed text denotes the value in the annotated grammar (formatting options only
+   ever change insignificant white space) *)
+Theorem C04_denotes : forall o v, wfv v -> exists m, jtext strict (text_items (layout_text o v)) v m.
+Proof. exact layout_text_strict. Qed.
+
+Theorem C04_never_panics : forall o v, exists t, print_with o v = Some t.
+Proof. exact print_never_panics. Qed.
+
+Theorem C04_string_literal_denotes : forall s, Forall (fun c => is_scalar c = true) s -> jstr strict (quote s) s.
+Proof. exact quote_denotes. Qed.
+
+Example C04_example :
+  let v := VObj [([0x6B; 0x22], VArr [VNum (s2l "-1.5e+2"); VStr [0x0A; 0x1F600]; VObj []]); ([0x6B; 0x22], VNull)] in
+  match print_with pretty v with
+  | Some t => match parse_str t with
+              | Ok (w, _) => value_eqb w v && existsb (N.eqb 0x0A) t
+              | _ => false
+              end
+  | None => false
+  end = true.
+Proof. vm_compute. reflexivity. Qed.
+
+Print Assumptions C04_roundtrip.
+Print Assumptions C04_output_is_strict_json.
+Print Assumptions C04_denotes.
+Print Assumptions C04_never_panics.
+Print Assumptions C04_string_literal_denotes.
+Print Assumptions C04_example.
